@@ -12,6 +12,7 @@ import numpy as np
 
 import common as C
 import fuzzylite as fl
+import user_terms as U
 from props import c04
 from streams import highest_activated as S_HIGH
 from streams import wave5x as S_W5
@@ -38,6 +39,7 @@ RULE = ("WeightedAverage and WeightedSum x {Automatic, TakagiSugeno, Tsukamoto} 
         "A case is non-trivial when the result is a finite number; distinct = distinct input")
 RULE += (" Stream `infer-tree` (fv/streams/wave5x.py): WeightedDefuzzifier.infer_type on nested Aggregated / Variable / Activated / plain components against Op.Weighted.inferComp.")
 RULE += (" Stream `highest-activated` (fv/streams/highest_activated.py): Aggregated.highest_activated_term (scalar degrees, 1-D degrees of one entry, batches -> ValueError) and Aggregated.range against Op.Weighted.highestActivated.")
+RULE += (" User-defined term classes (fv/user_terms.py: a monotonic fl.Term subclass with its own tsukamoto(), a non-monotonic one, subclasses of Ramp and Constant) stand next to the built-in classes in a further run of the main stream (Automatic and fixed types, all aggregations, batches), in the leaves of the `infer-tree` stream (judged by the documented decision table as well as by the model) and in the `highest-activated` stream; the model knows each under the name of the built-in shape that computes the same function.")
 ASSUMPTIONS = ["numbers: 1e-9 abs+rel relative to the magnitude of the accumulated terms",
                "Arc is left out (C03/F1: its centre is computed with rounding); Function terms are polynomials in x whose "
                "coefficients are function variables (formula evaluation itself is C17)",
@@ -100,6 +102,11 @@ def build_terms(case, row=None):
             cs = [float(c) for c in t["poly"]]
             formula = " + ".join(["c0"] + [f"c{i}" + "*x" * i for i in range(1, len(cs))])
             pool[name] = fl.Function(name, formula, variables={f"c{i}": c for i, c in enumerate(cs)}, load=True)
+        elif cls == "ConstantChild":
+            pool[name] = U.ConstantChild(name, fl_num(t["value"]))
+        elif cls in U.CLASSES:
+            # a class written by a user of the library (fv/user_terms.py)
+            pool[name] = U.CLASSES[cls](name, *[fl_num(p) for p in t["params"]], height=float(t["h"]))
         else:
             pool[name] = getattr(fl, cls)(name, *[fl_num(p) for p in t["params"]], height=float(t["h"]))
     return pool
@@ -154,10 +161,15 @@ def nan_to_num01(v):
     return Fr(v)
 
 
+def is_mono(cls):
+    """what the term says about itself (`is_monotonic()`): the built-in monotonic classes and the user-defined ones"""
+    return cls in MONO or cls in U.MONOTONIC
+
+
 def kind_of(t):
-    if t["cls"] in SUGENO:
+    if t["cls"] in SUGENO or t["cls"] in U.SUGENO:
         return "TakagiSugeno"
-    return "Tsukamoto" if t["cls"] in MONO else "Automatic"
+    return "Tsukamoto" if is_mono(t["cls"]) else "Automatic"
 
 
 def row_degree(a, row):
@@ -185,7 +197,7 @@ def expected(case, row, acts=None, ty=None):
             return "type-error"
         ty = kinds.pop() if kinds else "Automatic"
     gs = grouped(case, row, acts)
-    if ty == "Tsukamoto" and any(case["terms"][n]["cls"] not in MONO for n, _ in gs):
+    if ty == "Tsukamoto" and any(not is_mono(case["terms"][n]["cls"]) for n, _ in gs):
         return "runtime-error"
     if not acts:
         return ("value", "nan", Fr(0))
@@ -274,7 +286,7 @@ def oracle(case):
                                f"result from {v[0]!r} to {v2!r}")
         # weighted average of constants
         if case["which"] == "WeightedAverage" and not isinstance(ex, str) and all(
-                case["terms"][a["name"]]["cls"] == "Constant" for a in case["acts"]):
+                case["terms"][a["name"]]["cls"] in ("Constant", "ConstantChild") for a in case["acts"]):
             ks = [fl_num(case["terms"][n]["value"]) for n, w in grouped(case, b) if w > 0]
             if ks and not (min(ks) - 1e-9 * (1 + abs(min(ks))) <= v[0] <= max(ks) + 1e-9 * (1 + abs(max(ks)))):
                 return False, f"row {b}: average {v[0]!r} of constants outside [{min(ks)}, {max(ks)}]"
@@ -295,6 +307,9 @@ def oracle(case):
 # ------------------------------------------------------------------------------------------ generators
 
 def gen_term(rng, cls):
+    if cls in U.CLASSES:
+        # the parameters of the built-in class that computes the same function
+        return {**gen_term(rng, U.MODEL_AS[cls]), "cls": cls}
     if cls == "Constant":
         return {"cls": cls, "value": rng.choice([0.0, 1.0, -2.5, 10.0, 20.0, rng.uniform(-50, 50)])}
     if cls == "Linear":
@@ -329,11 +344,19 @@ def gen_term(rng, cls):
 DEG = [0.0, 0.0, 1.0, 0.5, 0.25, 0.75, 0.3, 0.7, 0.1, 0.9]
 
 
-def gen_case(ctx, k):
+def gen_case(ctx, k, user=False):
+    """`user`: classes written by a user of the library (fv/user_terms.py) stand next to the built-in ones in every pool -
+    monotonic with their own tsukamoto(), non-monotonic, subclasses of built-in classes"""
     rng = ctx.rng
     style = rng.choice(["sugeno", "sugeno", "tsukamoto", "tsukamoto", "inverse", "mixed", "constants"])
     classes = {"sugeno": ["Constant", "Linear", "Function"], "constants": ["Constant"], "tsukamoto": MONO,
                "inverse": NONMONO, "mixed": ["Constant", "Linear", "Function"] + MONO + NONMONO}[style]
+    if user:
+        mine = {"sugeno": U.SUGENO, "constants": U.SUGENO, "tsukamoto": U.MONOTONIC, "inverse": U.NON_MONOTONIC,
+                "mixed": U.SUGENO + U.MONOTONIC + U.NON_MONOTONIC}[style]
+        # as many draws from the user's classes as from the library's (some outputs hold user-defined terms only)
+        reps = max(1, len(classes) // len(mine))
+        classes = (classes if rng.random() < 0.8 else []) + mine * reps
     nterms = rng.randint(1, 4)
     terms = {}
     for i in range(nterms):
@@ -434,8 +457,10 @@ def fragile(case):
 
 def term_sx(case, name, b):
     t = case["terms"][name]
-    if t["cls"] == "Constant":
+    if t["cls"] in ("Constant", "ConstantChild"):
         return ["Constant", fl_num(t["value"])]
+    if t["cls"] in U.CLASSES:
+        return [U.MODEL_AS[t["cls"]], [fl_num(p) for p in t["params"]], float(t["h"])]
     if t["cls"] == "Linear":
         ins = [fl_num(c[b]) if isinstance(c, list) else fl_num(c) for c in case.get("inputs") or []]
         return ["Linear", [float(c) for c in t["coeffs"]], ins]
@@ -453,13 +478,18 @@ def lines(case):
     return out
 
 
-def correspond(ctx):
-    st = ctx.stats
-    mism = []
+def user_cases(ctx):
+    """drawn after every earlier stream: the same fuzzy outputs with user-defined term classes next to the built-in ones"""
+    for k in range(ctx.scale(480, 4800)):
+        yield gen_case(ctx, k, user=True)
+
+
+def prepare(ctx, stream):
+    """-> (cases that are not fragile, model lines of all of them, (offset, count) of each case's lines)"""
     todo = []
-    for case in cases(ctx):
+    for case in stream:
         if fragile(case):
-            st.skipped_fragile += 1
+            ctx.stats.skipped_fragile += 1
             continue
         todo.append(case)
     allines, spans = [], []
@@ -467,7 +497,34 @@ def correspond(ctx):
         ls = lines(c)
         spans.append((len(allines), len(ls)))
         allines += ls
-    outs = ctx.driver.eval(allines)
+    return todo, allines, spans
+
+
+def correspond(ctx):
+    mism = []
+    todo, allines, spans = prepare(ctx, cases(ctx))
+    judge(ctx, todo, spans, ctx.driver.eval(allines), mism)
+    # Aggregated.highest_activated_term / range against Op.Weighted.highestActivated (model of the code tie)
+    mism += S_HIGH.run(ctx, sys.modules[__name__])
+    later = []
+
+    def more(ctx):
+        todo2, lines2, spans2 = prepare(ctx, user_cases(ctx))
+        high = list(S_HIGH.own_term_cases(ctx, sys.modules[__name__]))
+
+        def answers(outs):
+            judge(ctx, todo2, spans2, outs[:len(lines2)], later)
+            later.extend(S_HIGH.judge(ctx, sys.modules[__name__], high, outs[len(lines2):]))
+        return lines2 + [S_HIGH.model_line(c, sys.modules[__name__]) for c in high], answers
+
+    # WeightedDefuzzifier.infer_type on nested components against Op.Weighted.inferComp (model of `code_inferType_tree`);
+    # the cases with user-defined classes travel in the same launch of the driver
+    mism += S_W5.run_tree(ctx, more)
+    return mism + later
+
+
+def judge(ctx, todo, spans, outs, mism):
+    st = ctx.stats
     n_or = 0
     for i, (case, (s0, n)) in enumerate(zip(todo, spans)):
         o = outs[s0:s0 + n]
@@ -476,6 +533,8 @@ def correspond(ctx):
         st.count("type=" + case["type"])
         st.count("agg=" + str(case["agg"]))
         st.count(f"acts={len(case['acts'])}")
+        if any(t["cls"] in U.CLASSES for t in case["terms"].values()):
+            st.count("user-defined term classes")
         if is_batch(case):
             st.count("batch")
         v = run(case)
@@ -530,15 +589,11 @@ def correspond(ctx):
                 if len(mism) > 12:
                     break
     st.count("oracle", n_or)
-    # Aggregated.highest_activated_term / range against Op.Weighted.highestActivated (model of the code tie)
-    mism += S_HIGH.run(ctx, sys.modules[__name__])
-    # WeightedDefuzzifier.infer_type on nested components against Op.Weighted.inferComp (model of `code_inferType_tree`)
-    mism += S_W5.run_tree(ctx)
-    return mism
 
 
 def search(ctx):
-    for case in cases(ctx):
+    import itertools
+    for case in itertools.chain(cases(ctx), user_cases(ctx), S_W5.tree_cases(ctx)):
         ok, d = oracle(case)
         if not ok:
             return [(case, d)]
